@@ -15,7 +15,7 @@ from ..rng import digest
 from .. import observe as ob
 
 PROP = "C03"
-RUNS = {"quick": 2500, "thorough": 150000}
+RUNS = {"quick": 2500, "thorough": 50000}
 WALL = {"quick": 280, "thorough": 3500}
 RULE = ("one run = one valid document delivered in k orders (4 quick / 12 thorough; all n! for <=5 "
         "records in the thorough tier); distinct = distinct (document digest, order digest) pairs")
